@@ -871,6 +871,8 @@ class SplineObject(object):
 
         # set up the rotation matrix
         if dim == 2:
+            if len(normal) > 2 and normal[2] < 0:
+                theta = -theta  # rotating about -z is the opposite planar rotation
             R = np.array([[np.cos(theta), -np.sin(theta)], [np.sin(theta), np.cos(theta)]
                  ]).T  # we do right-multiplication, so we need a transpose
         elif dim == 3:
